@@ -1,7 +1,3 @@
 //! shared helpers for the relay monitors
-<<<<<<< HEAD
 pub mod proto_util;
-=======
-
 pub mod rig;
->>>>>>> ag3
